@@ -69,7 +69,7 @@ func TestC04_RefreshRotation(t *testing.T) {
 
 func TestC08_Revocation(t *testing.T) {
 	runEngine(t, "C08", EngCfg{
-		Weights: map[string]int{"authorize": 4, "redeem": 4, "refresh": 3, "revoke": 7, "advance": 1, "password": 1, "clientcreds": 1},
+		Weights: map[string]int{"authorize": 4, "redeem": 4, "refresh": 3, "revoke": 7, "advance": 1, "password": 1, "clientcreds": 1, "overlappingRefresh": 1},
 		Stores:  []string{"mem", "mem", "tx"}, JWT: []bool{false, false, true}, RefreshScopeModes: []int{0, 0, 1},
 		Flows: allFlows,
 	}, func(l map[string]bool) bool {
